@@ -4,6 +4,7 @@ import (
 	"fmt"
 	"go/token"
 	"go/types"
+	"regexp"
 	"sort"
 
 	"golang.org/x/tools/go/ssa"
@@ -60,7 +61,8 @@ func ruleU10(p *Prog) *RuleResult {
 					res.ok(cn, p.ipos(bo), "start + length of one interval16: its last element")
 					continue
 				}
-				key := fname(f) + "|" + shape
+				// a field of a struct that holds the key counts as the key: <keyedChunk>.(uint16) + 1 is <uint16> + 1
+				key := fname(f) + "|" + reducedShape(shape)
 				seen[key]++
 				if t, ok := u10Allowed[key]; ok && seen[key] <= t.n {
 					res.ok(cn, p.ipos(bo), "triaged: "+t.why)
@@ -106,4 +108,18 @@ func u10FieldOf(v ssa.Value) (u10Field, bool) {
 		}
 	}
 	return u10Field{}, false
+}
+
+var fieldOfShape = regexp.MustCompile(`<[^<>]*>\.\(([^()]*)\)`)
+
+// reducedShape folds "<T>.(U)" (a field of type U of a value of type T) into "<U>"
+func reducedShape(s string) string {
+	for i := 0; i < 4; i++ {
+		t := fieldOfShape.ReplaceAllString(s, "<$1>")
+		if t == s {
+			break
+		}
+		s = t
+	}
+	return s
 }
